@@ -1,4 +1,5 @@
 //@host src/io_loop/mod.rs
+//@quick (generic sweep without wall-clock dependence: also runs in the quick tier, labelled bounded)
 // C11 bounded stand-in, end to end through the public API (real I/O thread, in-memory broker): a consumer's life in every order of
 // {k deliveries, client cancel with j deliveries arriving between the cancel request and its confirmation, server cancel (nowait or not),
 // drop of the consumer, second cancel, client channel close, server channel close}.
